@@ -24,6 +24,12 @@ CHECKS = {
             "deterministic simulation: seeded tree/fault search vs. layered-lookup reference model"),
     "C11": ("exploration", "seeded API histories (create/set/get/get-default/list, refusal shapes, four constructors, growth past the pre-allocated entries) executed against the real library in lock-step with an ordered-map reference model under seeded heap fill", "6 C11",
             "deterministic simulation: seeded API histories vs. ordered-map reference model"),
+    "C04": ("exploration", "storage faults (truncate, bit flip, zero range, duplicated/swapped sectors, garbage splice, foreign file, CRLF, missing final newline, tearing of files the library wrote itself) applied to valid and unstructured stored files, then the complete consumer workload (all delimiter/comment sets, parsing options, every getter on every key, merges in both roles, write + read-back) under ASan+UBSan with a deterministic step budget", "6 C04",
+            "deterministic simulation: seeded storage-fault injection, sanitizer + step-budget oracle"),
+    "C18": ("exploration", "2-16 real caller threads on private objects under a seeded scheduler that owns every interleaving (preemption at every basic-block edge of the library and every wrapped libc call); per-thread results compared with solo runs (ASan build) and ThreadSanitizer build with hidden hand-offs as exact shared-memory detector; schedules recorded, minimised and replayed", "6 C18",
+            "deterministic simulation: seeded scheduler over real threads, solo-equivalence + TSan with hidden hand-offs"),
+    "C19": ("exploration", "the real econftool binary (ASan+UBSan build of the current sources) is spawned for show/syntax/cat on seeded two-layer trees and single files and compared with the in-process library on the same simulated tree", "6 C19",
+            "deterministic simulation: second-party differential (real tool vs. library) on seeded trees"),
     "C06": ("fault_enumeration", "the simulator is the caller's callback: the veto is injected at every consulted file in turn (complete per generated tree) and at seeded subsets, through all four callback entry points; the recorded event history of each call (callback vs. fopen order, path sequence, data pointer) and the out-pointers are judged", "6 C06",
             "deterministic simulation: single-fault enumeration of callback vetoes, event-history oracle"),
     "C07": ("exploration", "seeded setter histories and parsed 5.1 files written through the real file layer and read back under seeded short reads and heap fill; before/after dumps compared by the equality of DESIGN.md 5.4", "6 C07",
@@ -40,7 +46,7 @@ CHECKS = {
             "deterministic simulation: fault enumeration with allocation-ledger conservation and fill-byte differential"),
 }
 
-PENDING = ["C04", "C06", "C07", "C10", "C12", "C13", "C16", "C18", "C19", "C20"]
+PENDING = []
 
 
 def main():
